@@ -15,8 +15,8 @@ def make_cases(seed, tier):
     for rows in rows_l:
         for cols in cols_l:
             for dim in (1, 3):
-                if rows * cols * dim > 900 and tier == "quick":
-                    continue
+                if rows * cols * dim > (900 if tier == "quick" else 1600):
+                    continue      # the Lean model executes every permutation: keep the thorough tier within ~15 minutes
                 inp = [gen_word(rng) for _ in range(rows * cols * dim)]
                 rws = [inp[i * cols * dim:(i + 1) * cols * dim] for i in range(rows)]
                 thr = rng.choice([1, 2, 3, 16, 0])
